@@ -13,6 +13,7 @@ import Driver.Multi
 import Driver.Containers
 import Driver.Effects
 import Driver.Pabulib
+import Driver.Csv
 import Driver.MESLazy
 import Driver.MESAnalytics
 open Pabu Pabu.Driver
@@ -46,6 +47,9 @@ def dispatch (line : String) : String :=
     | "ops" => cmdOps a
     | "effects" => cmdEffects a
     | "pabulib" => cmdPabulib a
+    | "csvread" => cmdCsvRead a
+    | "csvwrite" => cmdCsvWrite a
+    | "pabulibtext" => cmdPabulibText a
     | _ => "bad-op"
 
 partial def loop (h : IO.FS.Stream) (out : IO.FS.Stream) : IO Unit := do
